@@ -36,7 +36,7 @@ pub fn break_workspace(ws: &mut Workspace, c: &mut Choices, cfg: &BreakCfg) -> V
     let n = 1 + c.below(3);
     for _ in 0..n {
         let fi = mods[c.below(mods.len())];
-        let k = c.weighted(&[6, 2, 1, 2, 2, 2, 2, 2, 2, 1, 2]);
+        let k = c.weighted(&[6, 2, 1, 2, 2, 2, 2, 2, 2, 1, 2, 1]);
         match k {
             0 => {
                 let (t, l) = damage::damage(&ws.files[fi].text, c, 3);
@@ -55,9 +55,14 @@ pub fn break_workspace(ws: &mut Workspace, c: &mut Choices, cfg: &BreakCfg) -> V
                 log.push(format!("empty file {}", fi));
             }
             3 => {
-                // self import
+                // self import (with an unqualified item or a qualified use only when probing C10-F1)
                 let m = ws.files[fi].module.clone().unwrap();
-                ws.files[fi].text = format!("import {}\n{}", m, ws.files[fi].text);
+                if cfg.import_cycles {
+                    let last = m.rsplit('/').next().unwrap().to_string();
+                    ws.files[fi].text = format!("import {}.{{selfish}}\n{}\npub fn selfish() {{ {}.selfish() }}\n", m, ws.files[fi].text, last);
+                } else {
+                    ws.files[fi].text = format!("import {}\n{}", m, ws.files[fi].text);
+                }
                 log.push(format!("self-import in file {}", fi));
             }
             4 => {
@@ -126,7 +131,25 @@ pub fn break_workspace(ws: &mut Workspace, c: &mut Choices, cfg: &BreakCfg) -> V
                     log.push(format!("recursive type in file {}", fi));
                 }
             }
-            _ => {
+            10 => {
+                // deep nesting / long chains (the parser bounds recursion; the analysis must cope with the result)
+                let l = super::c02::LADDERS[c.below(super::c02::LADDERS.len())];
+                let depth = 2 + c.below(1500);
+                let closers = *c.pick(&[0usize, 1, 2]);
+                let mut t = String::from("\n");
+                t.push_str(l.0);
+                for _ in 0..depth {
+                    t.push_str(l.1);
+                }
+                for _ in 0..(depth * closers / 2) {
+                    t.push_str(l.2);
+                }
+                t.push_str(l.3);
+                t.push('\n');
+                ws.files[fi].text.push_str(&t);
+                log.push(format!("deep nesting x{} of {:?} in file {}", depth, l.1, fi));
+            }
+            11 | _ => {
                 // a new file that is only garbage / only comments / only an import
                 let pkg = ws.files[fi].pkg;
                 let root = ws.packages[pkg].root.clone();
@@ -149,14 +172,49 @@ pub fn gen_broken(c: &mut Choices, corpus_files: &[(String, String)], cfg: &Brea
     (ws, log)
 }
 
-fn features(ws: &Workspace) -> String {
+fn imports_of(text: &str) -> Vec<String> {
+    text.lines()
+        .filter_map(|l| l.trim().strip_prefix("import "))
+        .map(|r| r.split(|c: char| c == '.' || c == ' ').next().unwrap_or("").to_string())
+        .collect()
+}
+
+/// Structural features known findings are keyed on.
+pub fn features(ws: &Workspace) -> String {
     let mut f = vec![];
-    let all: String = ws.files.iter().map(|f| f.text.as_str()).collect::<Vec<_>>().join("\n");
-    if all.contains("CycA = CycB") {
-        f.push("alias_cycle");
+    let mods: Vec<(String, Vec<String>)> = ws.files.iter().filter_map(|f| f.module.clone().map(|m| (m, imports_of(&f.text)))).collect();
+    let mut cycle = false;
+    for (m, imps) in &mods {
+        if imps.contains(m) {
+            cycle = true;
+        }
+        for (n, imps2) in &mods {
+            if m != n && imps.contains(n) && imps2.contains(m) {
+                cycle = true;
+            }
+        }
     }
-    if all.contains("cyc_a()") {
-        f.push("import_cycle_calls");
+    // longer cycles: transitive closure over module names
+    if !cycle {
+        for (m, _) in &mods {
+            let mut seen: Vec<String> = vec![];
+            let mut todo: Vec<String> = mods.iter().find(|x| &x.0 == m).map(|x| x.1.clone()).unwrap_or_default();
+            while let Some(n) = todo.pop() {
+                if &n == m {
+                    cycle = true;
+                    break;
+                }
+                if !seen.contains(&n) {
+                    seen.push(n.clone());
+                    if let Some(x) = mods.iter().find(|x| x.0 == n) {
+                        todo.extend(x.1.clone());
+                    }
+                }
+            }
+        }
+    }
+    if cycle {
+        f.push("import_cycle");
     }
     f.join(",")
 }
@@ -243,6 +301,18 @@ pub fn sweep(
     Ok((calls, nonempty))
 }
 
+/// Run the whole sweep of one workspace on a thread with a 2 MiB stack.
+pub fn on_small_stack(ctx: &mut Ctx, ws: &Workspace, c: &mut Choices) -> Result<(u64, u64), Failure> {
+    std::thread::scope(|s| {
+        std::thread::Builder::new()
+            .stack_size(2 << 20)
+            .spawn_scoped(s, || sweep(ctx, ws, 60, c, &mut |_, _, _, _, _| Ok(())))
+            .expect("spawn")
+            .join()
+            .unwrap_or_else(|_| Err(Failure::new("sweep thread died", Value::Null).sig("kind", "harness")))
+    })
+}
+
 pub fn is_broken(ws: &Workspace) -> bool {
     ws.files.iter().filter(|f| f.module.is_some()).any(|f| !syntax::parse_module(&f.text).errors().is_empty() || f.text.contains("nonexistent/module") || f.text.is_empty())
 }
@@ -282,7 +352,8 @@ impl Property for C10 {
             ctx.mark(&json!({"stream": hex(bytes), "alias_cycles": cfg.alias_cycles, "import_cycles": cfg.import_cycles}));
             let mut c = Choices::new(bytes);
             let (ws, log) = gen_broken(&mut c, &corpus_files, &cfg);
-            let (calls, nonempty) = sweep(ctx, &ws, 60, &mut c, &mut |_, _, _, _, _| Ok(()))?;
+            // the server analyses on tokio blocking-pool threads: 2 MiB of stack
+            let (calls, nonempty) = on_small_stack(ctx, &ws, &mut c)?;
             ctx.evals(calls);
             if is_broken(&ws) && nonempty > 0 {
                 ctx.nontrivial(hash_str(&ws_json(&ws).to_string()));
@@ -300,8 +371,17 @@ impl Property for C10 {
             let bytes = unhex(h);
             let mut c = Choices::new(&bytes);
             let cfg = BreakCfg { alias_cycles: case["alias_cycles"].as_bool().unwrap_or(true), import_cycles: case["import_cycles"].as_bool().unwrap_or(false) };
-            let (ws, _) = gen_broken(&mut c, &corpus(), &cfg);
-            return sweep(ctx, &ws, 60, &mut c, &mut |_, _, _, _, _| Ok(())).map(|_| ());
+            let (ws, log) = gen_broken(&mut c, &corpus(), &cfg);
+            if std::env::var("VERIF_DEBUG").is_ok() {
+                eprintln!("breaks: {:?}", log);
+                for f in &ws.files {
+                    eprintln!("file {} {} bytes: {}", f.path, f.text.len(), clip(&f.text.replace('\n', "⏎"), 200));
+                }
+                if std::env::var("VERIF_DEBUG").as_deref() == Ok("2") {
+                    return Ok(());
+                }
+            }
+            return on_small_stack(ctx, &ws, &mut c).map(|_| ());
         }
         let ws = ws_from_json(&case["workspace"]);
         let empty: [u8; 0] = [];
